@@ -30,7 +30,7 @@ func init() {
 		},
 		Run:            c11Run,
 		Floor:          func(tier string) int { return 3000 },
-		Rule:           "Constant: every attribute form (value as a tensor of each of the 11 element types in both encodings and ranks 0..3, value_float, value_floats, value_int, value_ints; unsupported forms, unknown names, zero or two attributes must be refused). ConstantOfShape: shapes of rank 1..4 x one-element value tensors of every type (dims [1] and rank 0) and the float32-zero default; invalid: two-element value, unknown attribute, negative extent. Cast: all 10x10 numeric source/target pairs with values representable in the target (fractions for truncation toward zero, extremes of the narrower type), scalars included; non-numeric targets must be refused. Exact comparison (bit patterns). MUST_EQUAL for what the statement lists as computed, MAY_REFUSE for int8/uint8 Cast sources, bool fill values, Cast to bool and zero extents, MUST_ERROR for invalid/unsupported. Non-trivial = every case (each has a distinct attribute/type/value combination); distinct = descriptor hash." + ruleShared + ruleReused,
+		Rule:           "(first case: the conversion routine under Cast enumerated over all 14 operand types x target codes -1..20) Constant: every attribute form (value as a tensor of each of the 11 element types in both encodings and ranks 0..3, value_float, value_floats, value_int, value_ints; unsupported forms, unknown names, zero or two attributes must be refused). ConstantOfShape: shapes of rank 1..4 x one-element value tensors of every type (dims [1] and rank 0) and the float32-zero default; invalid: two-element value, unknown attribute, negative extent. Cast: all 10x10 numeric source/target pairs with values representable in the target (fractions for truncation toward zero, extremes of the narrower type), scalars included; non-numeric targets must be refused. Exact comparison (bit patterns). MUST_EQUAL for what the statement lists as computed, MAY_REFUSE for int8/uint8 Cast sources, bool fill values, Cast to bool and zero extents, MUST_ERROR for invalid/unsupported. Non-trivial = every case (each has a distinct attribute/type/value combination); distinct = descriptor hash." + ruleShared + ruleReused,
 		RaceInThorough: true,
 		Technique:      "runtime monitoring: differential execution against the reference with exact comparison",
 		Assumptions:    []string{"C-style conversion semantics = Go's numeric conversions for in-range values; out-of-range float->int, NaN->int and narrowing integer wrap are implementation-defined and excluded"},
